@@ -27,6 +27,7 @@ fn main() {
             Some("c08") => lanes::c08::replay(&v),
             Some("c09") => lanes::c09::replay(&v),
             Some("c11") => lanes::c11::replay(&v),
+            Some("c14") => lanes::c14::replay(&v),
             Some("c15") => lanes::c15::replay(&v),
             Some("c19") => lanes::c19::replay(&v),
             Some("c20") => lanes::c20::replay(&v),
@@ -54,6 +55,7 @@ fn main() {
         "C08" => lanes::c08::run(tier),
         "C09" => lanes::c09::run(tier),
         "C11" => lanes::c11::run(tier),
+        "C14" => lanes::c14::run(tier),
         "C15" => lanes::c15::run(tier),
         "C19" => lanes::c19::run(tier),
         "C20" => lanes::c20::run(tier),
